@@ -29,6 +29,7 @@ func Spec(prop, tier string) *core.CheckSpec {
 			Batches: []core.Batch{
 				{Engine: "corofree", Mode: "std", Runs: n(40000, 2000000), Millis: ms(20000, 600000)},
 				{Engine: "corofree", Mode: "std", Variant: "race", Runs: n(6000, 400000), Millis: ms(20000, 600000), HangS: 120},
+				{Engine: "corofree", Mode: "free", Variant: "race", Runs: n(3000, 300000), Millis: ms(15000, 400000), HangS: 60, Chunk: 200, Sound: true, Workers: 6, Env: []string{"GOMAXPROCS=4"}, Note: "no scheduler: real goroutine scheduling under the race detector (cross-check of the hook model; not replayable, reports races, crashes, hangs and repeatable differences)"},
 				{Engine: "model", Mode: "coro", Runs: n(30000, 3000000), Millis: ms(20000, 600000)},
 				{Engine: "model", Mode: "coro", Variant: "race", Runs: n(4000, 400000), Millis: ms(15000, 400000), HangS: 120},
 			},
